@@ -303,7 +303,7 @@ distinct = distinct elevation strings / azimuth-list pairs; oracle = 10-line ref
     }
 
     // random grouping
-    let n = ctx.tier.pick(3_000, 60_000);
+    let n = ctx.tier.pick(3_000, 400_000);
     for i in 0..n {
         if ctx.out_of_time() {
             break;
@@ -351,7 +351,7 @@ distinct = distinct elevation strings / azimuth-list pairs; oracle = 10-line ref
     }
 
     // random merge
-    let n = ctx.tier.pick(3_000, 60_000);
+    let n = ctx.tier.pick(3_000, 400_000);
     for i in 0..n {
         if ctx.out_of_time() {
             break;
